@@ -149,6 +149,8 @@ package message
 //@   ensures calls(P) == old(calls(P)) + 1 ==> arg(P, 0, old(calls(P))) == h.publishTopic && arg(P, 1, old(calls(P))) == ret(H, 0, old(calls(H))) [publishes-exactly-the-outputs-to-the-publish-topic]
 //@   ensures handlerFailed(old(calls(H))) || publishFailed(old(calls(P)), calls(P)) || (len(ret(H, 0, old(calls(H)))) > 0 && h.publisher == nil) ==> ncalls("(*Message).Nack") == old(ncalls("(*Message).Nack")) + 1 && ncalls("(*Message).Ack") == old(ncalls("(*Message).Ack")) [nack-on-failure]
 //@   ensures ncalls("(*Message).Ack") == old(ncalls("(*Message).Ack")) + 1 ==> !handlerFailed(old(calls(H))) && !publishFailed(old(calls(P)), calls(P)) && ncalls("(*Message).Nack") == old(ncalls("(*Message).Nack")) [ack-only-on-success]
+//@   ensures !handlerFailed(old(calls(H))) && len(ret(H, 0, old(calls(H)))) > 0 && h.publisher != nil && (forall j int :: 0 <= j && j < len(ret(H, 0, old(calls(H)))) ==> ret(H, 0, old(calls(H)))[j] != nil) ==> calls(P) == old(calls(P)) + 1 [outputs-of-a-successful-handler-are-handed-to-its-publisher]
+//@   ensures !handlerFailed(old(calls(H))) && (forall j int :: 0 <= j && j < len(ret(H, 0, old(calls(H)))) ==> ret(H, 0, old(calls(H)))[j] != nil) && (len(ret(H, 0, old(calls(H)))) == 0 || (calls(P) == old(calls(P)) + 1 && !publishFailed(old(calls(P)), calls(P)))) ==> ncalls("(*Message).Ack") == old(ncalls("(*Message).Ack")) + 1 && ncalls("(*Message).Nack") == old(ncalls("(*Message).Nack")) [ack-when-handled-and-every-output-accepted]
 //@   ensures ncalls("(*Message).Ack") + ncalls("(*Message).Nack") == old(ncalls("(*Message).Ack") + ncalls("(*Message).Nack")) + 1 [router-settles-exactly-once]
 //@   ensures calls(P) == old(calls(P)) + 1 ==> (forall j int :: 0 <= j && j < len(arg(P, 1, old(calls(P)))) ==> stamped(h, arg(P, 1, old(calls(P)))[j].ctx)) [outputs-carry-handler-context]
 //@   ensures wgtoken(h.runningHandlersWg) == 0 [done-once]
